@@ -10,6 +10,16 @@ CLAIMED = {
    text="Every program of a typed core grammar (applications with fixed/rest parameters, lambda, top-level definitions in both spellings, internal definitions with forward references, if with boolean and non-boolean tests, quote, apply with and without spread arguments, higher-order and closure-making procedures, a tick probe at every position) with at most N nodes, under two naming disciplines, is evaluated form by form on the real interpreter; the value and the tick trace of every form must equal the reference evaluator's under one operand-order policy. The simplest programs are additionally re-run from the initial state of a fresh interpreter.",
    note="trusted: refsem (definitional evaluator written from R7RS, self-tested on the report's examples); programs beyond the node bound are not explored",
    design="7/C01"),
+ "C05": dict(
+   technique="bounded exhaustive sweep: every shape x truth assignment x context of every derived form and all nested pairs/triples, executed on the real interpreter against a reference evaluator",
+   text="Every shape of begin/let/let*/cond/case/and/or/when/unless (650+ templates) with a tick probe in every sub-form position under every truth assignment of its tests, in three evaluation contexts; every ordered pair (thorough: triple) of representative forms nested in every sub-form position; plus the hygiene facet (user variables named like identifiers of the bundled macro file, user rebinding of identifiers the templates rely on). Value and tick trace (order and multiplicity of evaluation) must equal the reference, which implements the forms directly from R7RS.",
+   note="trusted: refsem; known findings (hygiene, top-level begin) are recognised only by an exact defect model on cases carrying the facet",
+   design="7/C05"),
+ "C08": dict(
+   technique="exhaustive product of fault kind x calling context x depth x position, each a history on one fresh interpreter compared form by form with a reference evaluator",
+   text="The full product of 57 faulting expressions (8 fault kinds) x 19 calling contexts (direct, operand, tail call, tail of if/cond/let, apply, callbacks of library procedures, right-hand sides, effects before/after) x depth x position is run as a history of forms on one fresh interpreter; the error kind of the failing form, the effects kept before it, the absence of effects after it and the results of all later probe forms must equal the reference.",
+   note="trusted: refsem error kinds; one fault per form",
+   design="7/C08"),
  "C09": dict(
    technique="bounded exhaustive sweep of the real evaluator over operand tuples (G, G^2, G^3) against an independent reference numeric tower",
    text="Every unary operation on a grid G of boundary numbers (literals and computed values of every internal representation), every binary operation on G^2 and every 3-operand fold on G^3 is executed on the real interpreter and compared with an i128-rational / IEEE-f32 reference: no tuple of the grid violates exactness, division-by-zero or contagion. Small-scope assurance: exhaustive inside the grid, nothing outside it.",
